@@ -13,7 +13,12 @@ import (
 // a very long operator chain (all recursion over the syntax tree in parser and compiler) and a long run of comments
 // (the lexer's Next called itself once per comment) exhausted the Go stack: "fatal error: stack overflow".
 // The scripts run in a child process; an error result is fine, a dead child is not.
-func TestVerifKF57(t *testing.T) { deepSource(t, "TestVerifKF57", "paren", "list", "not", "infix") }
+func TestVerifKF57(t *testing.T) { deepSource(t, "TestVerifKF57", "paren", "list", "not", "infix")
+}
+
+// KF-64 (second half): a chain of else-if branches is counted against the depth limit too.
+func TestVerifKF64b(t *testing.T) {
+	deepSource(t, "TestVerifKF64b", "elseif") }
 
 // KF-58: the same for a long run of comments (lexer).
 func TestVerifKF58(t *testing.T) { deepSource(t, "TestVerifKF58", "comment") }
@@ -32,6 +37,8 @@ func deepSource(t *testing.T, self string, kinds ...string) {
 			src = strings.Repeat("/**/", 5000000) + "1"
 		case "infix":
 			src = "1" + strings.Repeat("+1", 3000000)
+		case "elseif":
+			src = "if false {}" + strings.Repeat(" else if false {}", 1500000)
 		}
 		Eval(context.Background(), src)
 		os.Exit(0)
